@@ -64,7 +64,7 @@ pub(super) fn vk_waiting_holdtap(cfg: HoldTapConfig<'static>, coord: KCoord) -> 
 #[allow(dead_code)]
 pub static VK_CUSTOM_VALS: [u8; 2] = [11, 22];
 #[allow(dead_code)]
-pub(super) static VK_SEQ_EVENTS: &[SequenceEvent<'static, u8>] = &[SequenceEvent::Tap(KeyCode::Q)];
+pub static VK_SEQ_EVENTS: &[SequenceEvent<'static, u8>] = &[SequenceEvent::Tap(KeyCode::Q)];
 
 /// 3 columns x 2 rows (row 1 = virtual keys) x 3 layers.
 #[allow(dead_code)]
